@@ -8,7 +8,7 @@ from gens import hexs
 
 ID = "C12"
 FORMAT_GROUP = "syntax"
-LEAN_MODULES = ["LexVerif.Props.C12", "LexVerif.Props.C12Sep", "LexVerif.Props.C04Format", "LexVerif.Props.Literals.ParseFloatParse", "LexVerif.Props.Literals.ParseFloatShared", "LexVerif.Props.Literals.ParseIntegerAlgorithm", "LexVerif.Props.Literals.UtilSkip", "LexVerif.Props.Literals.UtilNoskip", "LexVerif.Props.Literals.UtilIterator", "LexVerif.Props.Literals.UtilDigit", "LexVerif.Props.Literals.ParseFloatApi", "LexVerif.Props.Literals.ParseIntegerApi", "LexVerif.Props.Literals.UtilFormatFlags", "LexVerif.Props.Literals.UtilFeatureFormat", "LexVerif.Props.Literals.UtilFormatBuilder"]
+LEAN_MODULES = ["LexVerif.Props.C12", "LexVerif.Props.C12Sep", "LexVerif.Props.C12Full", "LexVerif.Props.C04Format", "LexVerif.Props.Literals.ParseFloatParse", "LexVerif.Props.Literals.ParseFloatShared", "LexVerif.Props.Literals.ParseIntegerAlgorithm", "LexVerif.Props.Literals.UtilSkip", "LexVerif.Props.Literals.UtilNoskip", "LexVerif.Props.Literals.UtilIterator", "LexVerif.Props.Literals.UtilDigit", "LexVerif.Props.Literals.ParseFloatApi", "LexVerif.Props.Literals.ParseIntegerApi", "LexVerif.Props.Literals.UtilFormatFlags", "LexVerif.Props.Literals.UtilFeatureFormat", "LexVerif.Props.Literals.UtilFormatBuilder"]
 GEN = ["literals"]
 TRUSTED = [
     "Lean 4.33.0 kernel; axioms of each theorem listed under coverage.theorems",
@@ -35,7 +35,17 @@ LEVEL_TEXT = ("Proved in Lean about a statement-by-statement model of the float 
               "components, on inputs without the separator byte = the scope of C12): accepted => the grammar derives the input with the same sign, "
               "digit slices and exponent (or the same special), Error => the grammar rejects. The digit-separator exclusion fell with the repaired "
               "finding sep-format-uncounted-8digit-block (/repo 7e8a135 + 12a2453; regression_sep_format_* are the former witnesses '12345678', "
-              "'1.123456789'). Still excluded, with decided witnesses: base prefix, empty input / bare sign.")
+              "'1.123456789'). Still excluded, with decided witnesses: base prefix, empty input / bare sign. "
+              "Entry point (Props/C12Full.lean): syntax_dichotomy (with C10 the complete parser is ok+Verdict or Error+grammar rejects, no panic/fault case; "
+              "empty input / bare sign included whenever the format requires integer or mantissa digits: emptybody_rejects), entry_guards_pass (the four "
+              "validation guards of parse_with_options pass under the property's hypotheses; SpecialsWF/LettersOnly follow from OptionsBuilder::build), "
+              "accepted_value (numberBits of an accepted Number = litBits of the grammar's literal: unconditionally for the many-digit re-parse, from "
+              "NumberExactAt (Props.C01Main, proved separately) for an untruncated mantissa) and accepts_iff_grammar_entry_partial: the conclusion of "
+              "accepts_iff_grammar verbatim (printed line = rendering of grammarFloatComplete, or the grammar rejects and the line starts with err) for f32/f64 "
+              "under: radix feature implies power-of-two, no base prefix, not (empty body and no digits required), input shorter than (2^28-1200)/6 bytes "
+              "(beyond that the saturating exponent accumulator is visible in the value), NumberExactAt for few-digit numbers; "
+              "accepts_iff_grammar_of_numberExact reduces the whole class to the one open statement NumberExactC12 (def); accepts_iff_grammar_decimal_partial has C01Main's NumberExact as its one named hypothesis. accepts_iff_grammar itself stays a def: it is refuted on "
+              "the base-prefix finding (accepts_iff_grammar_refuted_by_prefix: format prefix_d_radix10, input '0').")
 LEVEL_NOTE = "Trusted: Lean kernel; that Model.ParseNumber/Model.Iter mirror parse.rs/skip.rs (correspondence); Spec.Grammar is read off the documentation (kept short; reviewed by hand)."
 
 
